@@ -389,11 +389,26 @@ CAMPAIGNS['C17'] = [
          'what only the straggler read and rebuilding)',
          nontrivial=nt_threads),
 ]
+LINE_RULE = ('line-level preemption: every source line executed inside '
+             'file_builder by a simulated thread is a yield point (seeded '
+             'random switching, p = 1-8 %), for windows that contain neither '
+             'a lock operation nor a file-system call')
+CAMPAIGNS['C09'].append(camp(
+    'c09-line-preempt', 'threads', {'p_line': 1.0}, THREAD_RULE + '; ' +
+    LINE_RULE, nontrivial=nt_threads, chunk=4, post='tag_all:C09',
+    weight=0.7))
+CAMPAIGNS['C08'].append(camp(
+    'c08-line-preempt', 'threads', {'p_line': 1.0, 'p_same_key': 1.0},
+    'same key from 2-4 threads; ' + LINE_RULE, nontrivial=nt_threads,
+    chunk=4, post='tag_all:C08', weight=0.7))
 CAMPAIGNS['C17'].append(
     camp('c17-preemption-sweep', 'stragglers', {},
          'stragglers, single-preemption sweep of the first scheduled build',
          mode='sched-sweep', nontrivial=nt_threads, chunk=3,
          sweep_max={'quick': 12, 'thorough': None}))
+CAMPAIGNS['C17'].append(camp(
+    'c17-line-preempt', 'stragglers', {'p_line': 1.0},
+    'stragglers; ' + LINE_RULE, nontrivial=nt_threads, chunk=4, weight=0.7))
 SWAP_RULE = ('two root programs whose output paths sit above / below each '
              'other (file <-> directory swaps of outputs between builds)')
 NESTED_RULE = ('build_file functions that build nested outputs and then fail, '
